@@ -1,8 +1,14 @@
 /-
-  Lemmas/CodecLaws.lean — the two laws of the byte-level dCBOR codec (`dcbor` crate),
-  taken by the envelope-level theorems of C05 / C06 as an explicit hypothesis
-  (`CodecLaws`, a structure in `Prop`; NOT an axiom), and the validity predicate
-  `Cbor.Valid` the laws speak about.
+  Lemmas/CodecLaws.lean — the byte-level dCBOR codec (`dcbor` crate as modelled in
+  Model/Cbor.lean): the validity predicate `Cbor.Valid`, the two codec laws as a hypothesis
+  structure (`CodecLaws`, in `Prop`; NOT an axiom) and its two halves `DecEncLaw` /
+  `EncDecAt b`, and what is proved about the model codec itself:
+    * `Cbor.decEncLaw : DecEncLaw` — every valid tree decodes from its encoding;
+    * `Cbor.encDec_of_plain` — whatever decodes to a tree without floats and without
+      integers in the ranges that `dcbor` 0.17.1 also accepts in float form re-encodes to the
+      bytes it was read from and is valid;
+    * the second law in general is false for the model codec and for `dcbor` 0.17.1
+      (`not_codecLaws` in Props/C06.lean).
 -/
 import EnvVerif.Model.Cbor
 namespace EnvVerif
@@ -12,9 +18,9 @@ namespace EnvVerif
 theorem beNat_append_single (b : Bytes) (x : UInt8) : beNat (b ++ [x]) = beNat b * 256 + x.toNat := by
   simp [beNat, List.foldl_append]
 
-theorem beBytes_length : ∀ (len n : Nat), (beBytes len n).length = len
+theorem beBytes_len : ∀ (len n : Nat), (beBytes len n).length = len
   | 0, _ => rfl
-  | len + 1, n => by simp [beBytes, beBytes_length len]
+  | len + 1, n => by simp [beBytes, beBytes_len len]
 
 theorem beNat_beBytes : ∀ (len n : Nat), beNat (beBytes len n) = n % 256 ^ len
   | 0, n => by simp [beBytes, beNat, Nat.mod_one]
@@ -147,7 +153,7 @@ theorem decHead_head (mt n : Nat) (rest : Bytes) (hmt : mt < 8) (h7 : mt = 7 →
         have e2 : (mt * 32 + 25) % 32 = 25 := by omega
         have e3 : n % 256 ^ 2 = n := Nat.mod_eq_of_lt (by omega)
         have e4 : ¬ n < 256 := h2
-        simp [e1, e2, beBytes_length, beNat_beBytes, e3, e4, hf]
+        simp [e1, e2, beBytes_len, beNat_beBytes, e3, e4, hf]
       · rename_i h3
         split
         · rename_i h4
@@ -157,7 +163,7 @@ theorem decHead_head (mt n : Nat) (rest : Bytes) (hmt : mt < 8) (h7 : mt = 7 →
           have e2 : (mt * 32 + 26) % 32 = 26 := by omega
           have e3 : n % 256 ^ 4 = n := Nat.mod_eq_of_lt (by omega)
           have e4 : ¬ n < 65536 := h3
-          simp [e1, e2, beBytes_length, beNat_beBytes, e3, e4, hf]
+          simp [e1, e2, beBytes_len, beNat_beBytes, e3, e4, hf]
         · rename_i h4
           have hb := headByte_lit mt hmt 27 (by omega)
           simp only [List.cons_append, decHead, hb]
@@ -165,7 +171,7 @@ theorem decHead_head (mt n : Nat) (rest : Bytes) (hmt : mt < 8) (h7 : mt = 7 →
           have e2 : (mt * 32 + 27) % 32 = 27 := by omega
           have e3 : n % 256 ^ 8 = n := Nat.mod_eq_of_lt (by omega)
           have e4 : ¬ n < 4294967296 := h4
-          simp [e1, e2, beBytes_length, beNat_beBytes, e3, e4, hf]
+          simp [e1, e2, beBytes_len, beNat_beBytes, e3, e4, hf]
 
 
 theorem head_ne_nil (mt n : Nat) : head mt n ≠ [] := by
